@@ -76,7 +76,7 @@ cannot throw.
 
 Missing for the full statement: the hypothesis `f.retInt`.  The unchanged tree has one entry
 point that returns `char*` (`ppl_io_wrap_string`): it has no try block and builds a `std::string`
-(see `all_tight_fails`, finding KF-C20-1). -/
+(see `all_tight_verdict`, finding KF-C20-1). -/
 theorem all_tight_partial : ∀ f ∈ cEntryPoints, f.retInt = true →
     (f.tryBlock = true ∧ f.catchClauses catchVariants = catchAll) ∨ f.cannotThrow = true := by
   intro f hf hr
@@ -84,20 +84,20 @@ theorem all_tight_partial : ∀ f ∈ cEntryPoints, f.retInt = true →
   simp [hr, EntryPoint.tight] at h
   exact h
 
-/-- The unrestricted statement is false on the regenerated table: some entry point has neither a
-`CATCH_ALL`-closed try block nor a call-free body. -/
-theorem all_tight_fails : ¬ ∀ f ∈ cEntryPoints,
-    (f.tryBlock = true ∧ f.catchClauses catchVariants = catchAll) ∨ f.cannotThrow = true := by
-  intro h
-  have hw : cEntryPoints.any (fun f => !f.tight catchVariants catchAll) = true := by decide +kernel
-  rcases List.any_eq_true.mp hw with ⟨f, hf, hnt⟩
-  have := h f hf
-  simp [EntryPoint.tight] at hnt
-  rcases this with ⟨h1, h2⟩ | h3
-  · rcases hnt.1 with a | b
-    · simp [h1] at a
-    · exact b h2
-  · simp [h3] at hnt
+/-- **all_tight**, full strength: every entry point — whatever it returns — is closed by exactly the
+clauses of `CATCH_ALL`, or cannot throw, or (pointer-returning) is closed by handlers that catch every
+class, notify the error handler with the documented code of their class and return the null pointer. -/
+def AllTight : Prop := ∀ f ∈ cEntryPoints, f.tightFull catchVariants catchAll = true
+
+/-- Which way `AllTight` goes on the regenerated table, with its proof.  On the unchanged tree:
+`fails` (`ppl_io_wrap_string`, finding KF-C20-1); the same text yields `holds` once that is repaired. -/
+def all_tight_verdict : Verdict AllTight := by
+  first
+  | exact .holds (of_chunks (fun f => f.tightFull catchVariants catchAll) (by decide +kernel))
+  | exact .fails (fun h => by
+      have hw : cEntryPoints.any (fun f => !f.tightFull catchVariants catchAll) = true := by decide +kernel
+      rcases List.any_eq_true.mp hw with ⟨f, hf, hnt⟩
+      simp [h f hf] at hnt)
 
 /-- The only entry points without a try block that still satisfy tightness are call-free. -/
 theorem untried_cannot_throw : ∀ f ∈ cEntryPoints, f.retInt = true → f.tryBlock = false →
@@ -169,7 +169,7 @@ example : 400 ≤ (cEntryPoints.flatMap (·.terns)).length := by decide +kernel
 returns directly (i.e. not from a `CATCH_ALL` handler, hence without calling `notify_error`) is
 `PPL_STDIO_ERROR`, which is not one of the conditions the error handler is promised for.
 
-Missing for the full statement: the hypothesis `f.kind ≠ .io`; see `silent_errors_fails`
+Missing for the full statement: the hypothesis `f.kind ≠ .io`; see `silent_errors_verdict`
 (finding KF-C20-3: `ppl_io_asprint_*` return `PPL_ERROR_OUT_OF_MEMORY` on a failed `strdup` without
 invoking the handler). -/
 theorem silent_errors_partial : ∀ f ∈ cEntryPoints, f.kind ≠ .io →
@@ -180,13 +180,19 @@ theorem silent_errors_partial : ∀ f ∈ cEntryPoints, f.kind ≠ .io →
   simp [hk, List.all_eq_true] at h
   simpa [Ret.silentOnly] using h _ hc
 
-theorem silent_errors_fails : ¬ ∀ f ∈ cEntryPoints, ∀ c, Ret.err c ∈ f.rets → c = PPL_STDIO_ERROR := by
-  intro h
-  have hw : cEntryPoints.any (fun f => f.rets.contains (.err PPL_ERROR_OUT_OF_MEMORY)) = true := by
-    decide +kernel
-  rcases List.any_eq_true.mp hw with ⟨f, hf, hc⟩
-  have := h f hf _ (List.contains_iff_mem.mp hc)
-  exact absurd this (by decide)
+/-- **silent_errors**, full strength: `PPL_STDIO_ERROR` is the only code any entry point returns
+directly without having called the error handler. -/
+def SilentErrors : Prop := ∀ f ∈ cEntryPoints, f.rets.all (Ret.silentOnly [PPL_STDIO_ERROR]) = true
+
+/-- On the unchanged tree: `fails` (finding KF-C20-3). -/
+def silent_errors_verdict : Verdict SilentErrors := by
+  first
+  | exact .holds (of_chunks (fun f => f.rets.all (Ret.silentOnly [PPL_STDIO_ERROR])) (by decide +kernel))
+  | exact .fails (fun h => by
+      have hw : cEntryPoints.any (fun f => !f.rets.all (Ret.silentOnly [PPL_STDIO_ERROR])) = true := by
+        decide +kernel
+      rcases List.any_eq_true.mp hw with ⟨f, hf, hnt⟩
+      simp [h f hf] at hnt)
 
 /-! ### timeouts leave the handles usable -/
 
@@ -196,14 +202,20 @@ clears `abandon_expensive_computations`, so the interrupted handle (and every ot
 again.
 
 Missing for the full statement: the hypothesis `s.object = .timeout`; see
-`timeout_disarmed_fails` (finding KF-C20-2: `ppl_set_deterministic_timeout` registers a
+`timeout_disarmed_verdict` (finding KF-C20-2: `ppl_set_deterministic_timeout` registers a
 `timeout_exception` object, so `reset_timeout()` runs instead of `reset_deterministic_timeout()`). -/
 theorem timeout_disarmed_partial : ∀ s ∈ timeoutSetters, s.object = .timeout →
     disarmed catchAll resetFns s = true := by
   decide +kernel
 
-theorem timeout_disarmed_fails : ¬ ∀ s ∈ timeoutSetters, disarmed catchAll resetFns s = true := by
-  decide +kernel
+/-- **timeout_disarmed**, full strength: both timeouts. -/
+def TimeoutDisarmed : Prop := ∀ s ∈ timeoutSetters, disarmed catchAll resetFns s = true
+
+/-- On the unchanged tree: `fails` (finding KF-C20-2). -/
+def timeout_disarmed_verdict : Verdict TimeoutDisarmed := by
+  first
+  | exact .holds (by unfold TimeoutDisarmed; decide +kernel)
+  | exact .fails (by unfold TimeoutDisarmed; decide +kernel)
 
 example : timeoutSetters.length = 2 ∧ resetFns.length = 2 := by decide +kernel
 
